@@ -234,3 +234,25 @@ Proof. intros. rewrite !simpson_adaptive_asr. apply asr_sym. Qed.
 Corollary simpson_adaptive_cubic_reversed : forall cs (a b eps : R) d, a <= b -> (length cs <= 4)%nat ->
   simpson_adaptive Rops (cpeval Rops cs) b a eps d = cpint Rops cs a b.
 Proof. intros. rewrite simpson_adaptive_symmetric. apply simpson_adaptive_cubic_exact; assumption. Qed.
+
+(* ------------------------------------------------------------------ statements in the form Props/C12.v exports *)
+Lemma simpson_adaptive_step : forall (f : R -> C) (a b eps : R) d,
+  simpson_adaptive Rops f a b eps (S d) =
+  if stop eps a b then S3 f a b
+  else if accept f a b eps then richardson f a b
+  else vadd Rops (simpson_adaptive Rops f a ((a + b) / 2) (eps / 2) d) (simpson_adaptive Rops f ((a + b) / 2) b (eps / 2) d).
+Proof. intros. rewrite !simpson_adaptive_asr. apply asr_S. Qed.
+
+Lemma simpson_adaptive_terminates : forall (f : R -> C) (a b eps : R) d,
+  (simpson_adaptive_calls Rops f (fun _ => 1%nat) a b eps d <= 2 ^ (d + 1) + 1)%nat.
+Proof.
+  intros. pose proof (simpson_adaptive_calls_bound f (fun _ => 1%nat) 1 (fun _ => le_n 1) a b eps d) as H.
+  rewrite Nat.mul_1_l in H. exact H.
+Qed.
+
+Lemma accept_zero_example : accept (fun _ => (0, 0)) 0 1 1 = true.
+Proof.
+  unfold accept, delta, S3, Rbool_le. cbn [vscale vadd vsub Rops fst snd].
+  destruct (Rle_dec _ _) as [|H]; [reflexivity|]. exfalso. apply H.
+  replace (_ - _, _ - _) with (RtoC 0) by (unfold RtoC; f_equal; ring). rewrite Cmod_0. lra.
+Qed.
